@@ -431,9 +431,16 @@ func (vt *v2T) scenC08() {
 	contents = append(contents, append(append(multi(mit.Data), '\n'), mbDoc.Data...), multi(apacheHdr.Data), append(append(long, long...), mbDoc.Data...))
 	// texts full of continuation bytes that END in a truncated multi-byte sequence: at some pad width the input ends
 	// exactly where a buffer pass ends, and nothing behind the last byte may complete the sequence
-	mb2 := []byte(strings.Repeat(strings.Join(mbWords, "é ")+" ÿßæø\n", 3))
-	for _, tail := range [][]byte{{0xc3}, {0xe2, 0x80}, {0xf0, 0x9f, 0x92}} {
-		contents = append(contents, append(append([]byte(nil), mb2...), tail...))
+	// (the text is the Multibyte document itself, twice, so that its last word counts and the byte one buffer pass before the
+	// end lies in the text; four lead-ins move that byte over continuation and lead bytes)
+	ntrunc := 0
+	for lead := 0; lead < 4; lead++ {
+		for _, tail := range [][]byte{{0xc3}, {0xe2, 0x80}, {0xf0, 0x9f, 0x92}} {
+			t := append([]byte(strings.Repeat("x", lead)+" "), mbDoc.Data...)
+			t = append(append(t, bytes.TrimRight(append([]byte(nil), mbDoc.Data...), "\n")...), tail...)
+			contents = append(contents, t)
+			ntrunc++
+		}
 	}
 	nd := 6
 	if vt.thorough() {
@@ -461,7 +468,14 @@ func (vt *v2T) scenC08() {
 		}
 		// (2) pads: every width 0..2*1024+8 for the first contents, a seeded sample for the others
 		var pads []int
-		if ci < 2 || (ci >= 3 && ci <= 5) || vt.thorough() {
+		if ci >= 3 && ci < 3+ntrunc {
+			// the widths at which the input ends within a few bytes of the end of a buffer pass
+			for p := 0; p <= 2*1024+8; p++ {
+				if r := (p + len(content)) % 1020; r <= 8 {
+					pads = append(pads, p)
+				}
+			}
+		} else if ci < 2 || vt.thorough() {
 			for p := 0; p <= 2*1024+8; p++ {
 				pads = append(pads, p)
 			}
